@@ -17,6 +17,7 @@ import concurrent.futures, itertools, json, os, random, subprocess, sys, threadi
 import common, ks
 
 PROP = "C13"
+FAST_JVM = ("-XX:TieredStopAtLevel=1",)   # short runs: C1 only halves the wall time (measured 5.9 s -> 2.7 s for 36k states)
 
 
 def _show_prog(prog):
@@ -42,7 +43,7 @@ def model_sanity(result, cfg="MC_LocksModel.cfg"):
     """MC_LocksModel: the deadlocking combos of the hand-written programmes must be exactly the upward closure of the
     minimal sets the spec declares (both directions: no missed deadlock, no invented one)."""
     try:
-        r = common.run_tlc("MC_LocksModel", cfg=cfg, workers=4, heap="1g", timeout=240)
+        r = common.run_tlc("MC_LocksModel", cfg=cfg, workers=4, heap="1g", timeout=240, jvm=FAST_JVM)
         if r.timed_out or r.rc != 0 or r.violated or "Model checking completed. No error" not in r.out:
             result["error"] = "MC_LocksModel did not complete (rc=%s violated=%s):\n%s" % (r.rc, r.violated, r.out[-2500:])
             return
@@ -177,7 +178,7 @@ def build_model(obs, tier, seed):
             quad = rnd.sample(quad, 30000)
         combos["quad"] = quad
     # cross-check: sampled pairs of whole programmes
-    capw = 6000 if thorough else 150
+    capw = 6000 if thorough else 500
     m = len(whole_keys)
     wmulti = [any(_is_multi(st) for _, st in _segments([{"op": s[0], "kind": s[1], "pos": s[2]} for s in k], False)) for k in whole_keys]
     wp, seen = [], set()
@@ -229,10 +230,18 @@ def _pick_origins(members, model, obs, used_sigs):
     groups = sorted({progs[o[0]]["group"] for o in cands[0]})
     best = None
     for g in groups:
-        per = [[o for o in c if progs[o[0]]["group"] == g][:6] for c in cands]
+        per = []
+        for c in cands:   # the best origin of every distinct command, so that different command sets get replayed
+            seen, lst = set(), []
+            for o in c:
+                q = progs[o[0]]
+                if q["group"] == g and q["cmd"] not in seen:
+                    seen.add(q["cmd"])
+                    lst.append(o)
+            per.append(lst[:10])
         if not all(per):
             continue
-        for choice in itertools.islice(itertools.product(*per), 200):
+        for choice in itertools.islice(itertools.product(*per), 400):
             sig = "+".join(sorted(progs[o[0]]["cmd"] for o in choice))
             if best is None:
                 best = (choice, sig)
@@ -338,7 +347,8 @@ def run(v, cov, tier, seed):
         t2 = threading.Thread(target=lambda: res_steps.update(r=common.run_tlc("MC_Locks", cfg="MC_Locks_steps.cfg", workers=4, heap="3g",
                                                                                 extra_env={"LOCKS": in_path}, timeout=900)))
         t2.start()
-    res = common.run_tlc("MC_Locks", workers=8, heap="3g", extra_env={"LOCKS": in_path}, timeout=900 if thorough else 240)
+    res = common.run_tlc("MC_Locks", workers=8, heap="3g", extra_env={"LOCKS": in_path}, timeout=900 if thorough else 240,
+                         jvm=() if thorough else FAST_JVM)
     th.join()
     for sn in (sanity, sanity_steps):
         if "error" in sn:
